@@ -534,6 +534,17 @@ func cloneTx(tx interfaces.Transaction) interfaces.Transaction {
 	return n
 }
 
+// reencode serialises the modified transaction and decodes it again, as a peer would receive it;
+// a transaction the decoder refuses is returned as it is
+func reencode(tx interfaces.Transaction) (out interfaces.Transaction) {
+	defer func() {
+		if e := recover(); e != nil {
+			out = tx
+		}
+	}()
+	return cloneTx(tx)
+}
+
 // a fresh transfer: the fixture's transfer with `k` inputs spending random outpoints
 func freshTransfer(r *hx.Rand, tmpl interfaces.Transaction, k int) interfaces.Transaction {
 	tx := cloneTx(tmpl)
@@ -545,6 +556,9 @@ func freshTransfer(r *hx.Rand, tmpl interfaces.Transaction, k int) interfaces.Tr
 	}
 	tx.SetInputs(ins)
 	tx.SetLockTime(uint32(r.Intn(1000)))
+	if r.Bool() { // the new wire layout (leading version byte)
+		tx.SetVersion(common2.TxVersion09)
+	}
 	return cloneTx(tx)
 }
 
@@ -801,6 +815,25 @@ func gen(g *hx.Gen) {
 			emitSanity(g, nb)
 		}
 		cp := func() []interfaces.Transaction { return append([]interfaces.Transaction{}, txs...) }
+		// one field of one transaction changed, everything else (also the signatures) kept: version byte of
+		// the new-layout transactions, payload version, lock time
+		for j := 0; j < n; j++ {
+			if n > 12 && !r.Chance(25) {
+				continue
+			}
+			if txs[j].Version() >= common2.TxVersion09 {
+				m := cp()
+				t2 := cloneTx(txs[j])
+				t2.SetVersion(common2.TransactionVersion(0x0a + r.Intn(3)))
+				m[j] = reencode(t2)
+				mut(m)
+			}
+			m := cp()
+			t2 := cloneTx(txs[j])
+			t2.SetLockTime(t2.LockTime() + 1)
+			m[j] = reencode(t2)
+			mut(m)
+		}
 		// every single removal
 		for j := 0; j < n; j++ {
 			m := cp()
@@ -942,7 +975,35 @@ func gen(g *hx.Gen) {
 // ---------------------------------------------------------------- oracle
 
 type accepted struct {
-	ids string
+	ids     string
+	content string
+}
+
+// contentKey describes every transaction of the block field by field, through the accessors and the
+// per-field encoders only (NOT through Serialize / SerializeUnsigned / Hash): what "the same
+// transaction" means independently of how the id is computed. Signatures (programs) are left out:
+// the id does not cover them by design.
+func contentKey(b *types.Block) string {
+	var sb strings.Builder
+	for _, tx := range b.Transactions {
+		fmt.Fprintf(&sb, "[v%d t%d pv%d lt%d p", tx.Version(), tx.TxType(), tx.PayloadVersion(), tx.LockTime())
+		if tx.Payload() != nil {
+			sb.WriteString(hex.EncodeToString(tx.Payload().Data(tx.PayloadVersion())))
+		}
+		for _, a := range tx.Attributes() {
+			fmt.Fprintf(&sb, " a%d:%x", a.Usage, a.Data)
+		}
+		for _, in := range tx.Inputs() {
+			fmt.Fprintf(&sb, " i%x:%d:%d", in.Previous.TxID[:], in.Previous.Index, in.Sequence)
+		}
+		for _, o := range tx.Outputs() {
+			buf := new(bytes.Buffer)
+			o.Serialize(buf, tx.Version())
+			fmt.Fprintf(&sb, " o%x", buf.Bytes())
+		}
+		sb.WriteString("]")
+	}
+	return sb.String()
 }
 
 var acceptedByHeader = map[string]accepted{}
@@ -1051,10 +1112,13 @@ func oracle(t []string, out string) *hx.Violation {
 		hh := b.Header.Hash()
 		key := hex.EncodeToString(hh[:])
 		ids := strings.Join(idsOf(t), " ")
+		content := contentKey(b)
 		if prev, ok := acceptedByHeader[key]; ok && prev.ids != ids {
 			return &hx.Violation{Kind: "accept-two-lists", Detail: "two different transaction lists accepted under header " + key}
+		} else if ok && prev.content != content {
+			return &hx.Violation{Kind: "accept-two-contents", Detail: "two blocks whose transactions differ in a field (version / type / payload / attributes / inputs / outputs / lock time) accepted under header " + key + ": the ids do not cover that field"}
 		}
-		acceptedByHeader[key] = accepted{ids}
+		acceptedByHeader[key] = accepted{ids, content}
 	}
 	return nil
 }
